@@ -8,8 +8,15 @@ MetaStep == /\ l <= Len(Rec) /\ Rec[l].op \in MetaOps
             /\ l' = l + 1
             /\ (IF Rec[l].op = "reset" THEN regs' = <<>> ELSE UNCHANGED regs)
 
+\* an operand register was empty because an earlier call returned None where the specification says Some (the script is
+\* written for the specified behaviour): reported, and the output register stays empty
+DanglingStep == /\ l <= Len(Rec) /\ Rec[l].op = "dangling"
+                /\ Note(FALSE, Rec[l], Rec[l].obs.msg)
+                /\ l' = l + 1
+                /\ (IF Has(Rec[l], "out") THEN SetReg(Rec[l].out, NoneVal) ELSE UNCHANGED regs)
+
 Init == BaseInit
-Next == MetaStep \/ FieldStep \/ ScalarStep \/ EdStep \/ MontStep \/ MontToEdStep \/ RisStep \/ SigStep \/ VecStep \/ VecPointStep \/ ConstStep \/ MoreStep \/ NonspecMapStep \/ MemStep \/ LeakStep
+Next == MetaStep \/ DanglingStep \/ FieldStep \/ ScalarStep \/ EdStep \/ MontStep \/ MontToEdStep \/ RisStep \/ SigStep \/ VecStep \/ VecPointStep \/ ConstStep \/ MoreStep \/ NonspecMapStep \/ MemStep \/ LeakStep
 vars == <<l, bad, regs>>
 Spec == Init /\ [][Next]_vars
 =============================================================================
